@@ -439,7 +439,7 @@ def judge(traces: list[dict[str, Any]], rep: Any = None) -> dict[str, dict[str, 
                 json.dump([{'id': t['id'], 'events': t['events']} for t in ts], f)
             reqs = sorted({e['task'] for t in ts for e in t['events'] if e['task'] not in ('-', 'auth')})
             cfg = ('SPECIFICATION TSpec\nCONSTANTS\n  Req = {%s}\n  NKeys = %d\n  Prio <- P%s\n  MaxItem = %d\n  MaxCtx = 200\n  MaxRevoke = 1000\n'
-                   '  MaxFault = 1000\n  NBackoff = 1\n  MaxExpire = 1000\n  MaxRounds = 1000\n  Mode = "%s"\n  LoginOutcomes <- AllOutcomes\n  Variant = "code"\nCONSTRAINT Book\nPOSTCONDITION Verdicts\nCHECK_DEADLOCK FALSE\n'
+                   '  MaxFault = 1000\n  NBackoff = 1\n  MaxExpire = 1000\n  MaxRounds = 1000\n  Mode = "%s"\n  LoginOutcomes <- AllOutcomes\n  SameIsIdentical = TRUE\n  Variant = "code"\nCONSTRAINT Book\nPOSTCONDITION Verdicts\nCHECK_DEADLOCK FALSE\n'
                    % (', '.join('"%s"' % r for r in reqs), nkeys, ''.join(str(p) for p in prio), MAXITEM, mode))
             r = tlc.run('Trace_Vault', cfg_text=cfg, workers=1, deque=True, env={'TRACE_FILE': path}, timeout=1800)
         finally:
